@@ -9,6 +9,7 @@ L(b, g, a, t, m, f, so, se, p) ==
 Limit_C03  == L(2, 1, 2, 1, 0, 0, 2, 2, 1)
 Limit_C04  == L(2, 1, 2, 1, 1, 1, 2, 2, 1)
 Limit_Sim  == L(3, 2, 3, 2, 2, 2, 3, 3, 2)
+Limit_C13  == L(1, 0, 1, 0, 0, 0, 5, 5, 0)
 Limit_C19  == L(1, 1, 1, 1, 1, 1, 1, 1, 1)
 
 AllFaults == { "DuplicateName", "BadName", "NoneType", "WrongKind", "ForeignBlock", "NotMember", "Required", "NotFound" }
